@@ -87,6 +87,18 @@ class Svc(Service):
         CAP['args'] = (a,)
         return Ignored('debug', a)
 
+    @rpc(Integer, _returns=Integer, _body_style='out_bare')
+    def ign_outbare(ctx, a):
+        CAP['args'] = (a,)
+        return Ignored('debug', a)
+
+    @rpc(Integer, Integer, _returns=Integer)
+    def div(ctx, a, b):
+        CAP['args'] = (a, b)
+        if b == 0:
+            raise Fault('Client.DivisionByZero', u'b is zero')
+        return a * 10 + b
+
 
 APP = Application([Svc], 'tns', in_protocol=JsonDocument(), out_protocol=JsonDocument())
 NULL = NullServer(APP)
@@ -149,7 +161,7 @@ def _same_point(sx, p, q):
 FUNCS = ['spyne.server.null._FunctionCall.__call__', 'spyne.server.null._cb_sync',
          'spyne.application.Application.process_request', 'spyne.server._base.ServerBase.get_out_object',
          'spyne.protocol.dictdoc.hier.HierDictDocument.serialize', 'spyne.protocol.dictdoc.hier.HierDictDocument.deserialize']
-METHODS = ['show', 'first', 'two', 'two-ignored', 'nothing', 'noargs', 'outbare', 'bare', 'gen', 'boom', 'ign']
+METHODS = ['show', 'first', 'two', 'two-ignored', 'nothing', 'noargs', 'outbare', 'bare', 'gen', 'boom', 'ign', 'ign_outbare', 'div']
 
 
 @harness('C18', params=METHODS, functions=FUNCS,
@@ -170,9 +182,9 @@ def null_vs_wire(sx, m):
     style = sx.choose('style', ['positional', 'keyword'])
     if m == 'show':
         pos, kw, body = (a, s, flag), dict(i=a, s=s, b=flag), {'i': a, 's': s, 'b': flag}
-    elif m == 'first':
+    elif m in ('first', 'div'):
         pos, kw, body = (a, b), dict(a=a, b=b), {'a': a, 'b': b}
-    elif m in ('two', 'two-ignored', 'nothing', 'outbare', 'gen', 'ign'):
+    elif m in ('two', 'two-ignored', 'nothing', 'outbare', 'gen', 'ign', 'ign_outbare'):
         pos, kw, body = (a,), dict(a=a), {'a': a}
     elif m == 'noargs':
         pos, kw, body = (), {}, {}
@@ -190,7 +202,7 @@ def null_vs_wire(sx, m):
         ok += [sx.eq(nres[1], wres[1]), sx.eq(nres[2], wres[2])]
         return sx.And(*ok)
     direct, doc = nres[1], wres[1]
-    if m in ('ign', 'two-ignored'):
+    if m in ('ign', 'two-ignored', 'ign_outbare'):
         # delivered to the direct caller, sent as empty over the wire
         ok.append(isinstance(direct, Ignored) and sx.eq(direct.args[1], a))
         ok.append(doc is None or doc == {} or doc == [] or
@@ -255,3 +267,34 @@ def null_bare_styles(sx, m):
     want_label = s if (style == 'positional' or n) else None      # a falsy keyword value is "not given"
     return sx.And(sx.eq(p.x, a), sx.eq(p.y, b), sx.eq(p.label, s) if n or style == 'positional' else (p.label in (None, u'')),
                   sx.eq(nres[1], a))
+
+
+@harness('C18', params=['div', 'boom-then-first'], functions=FUNCS[:3],
+         bounds={'history': 'two consecutive calls on one NullServer (and the same two requests on the wire): arguments '
+                            'integers -3..3, so the first call may raise a Fault and the second succeed, or the reverse; '
+                            'positional or keyword invocation per call'})
+def null_call_sequences(sx, m):
+    """every call on a NullServer stands on its own: what an earlier call returned or raised does not show in a later one,
+    exactly as on the wire"""
+    CAP.clear()
+    ok = []
+    for step in range(2):
+        a = sx.int('a%d' % step, -3, 3)
+        b = sx.int('b%d' % step, -3, 3)
+        style = sx.choose('style%d' % step, ['positional', 'keyword'])
+        if m == 'div' or step == 1:
+            name = 'div' if m == 'div' else 'first'
+            nargs, nres = null_call(name, a, b) if style == 'positional' else null_call(name, a=a, b=b)
+            wargs, wres = wire_call(sx, name, {'a': a, 'b': b})
+        else:
+            s = sx.text('msg', 1, alphabet='ab')
+            nargs, nres = null_call('boom', a, s) if style == 'positional' else null_call('boom', a=a, msg=s)
+            wargs, wres = wire_call(sx, 'boom', {'a': a, 'msg': s})
+        ok += [_same_args(sx, nargs, wargs), nres[0] == wres[0]]
+        if nres[0] != wres[0]:
+            return False
+        if nres[0] == 'fault':
+            ok += [sx.eq(nres[1], wres[1]), sx.eq(nres[2], wres[2])]
+        else:
+            ok.append(sx.eq(nres[1], wres[1]))
+    return sx.And(*ok)
